@@ -15,7 +15,7 @@ use super::{FromMerge, StateLayout, StatementVer, StatementWrapper};
 use crate::Result;
 
 #[derive(Serialize, Deserialize, Debug, PartialEq, Eq, Clone)]
-#[serde(deny_unknown_fields)]
+#[serde(deny_unknown_fields, try_from = "StateV01Unchecked")]
 /// Statement `V0_1` means the statement of contains a predicate for SLSA format.
 ///
 /// Can be used together with most predicate.
@@ -27,6 +27,47 @@ pub struct StateV01 {
     #[serde(rename = "predicateType")]
     predicate_type: PredicateVer,
     predicate: PredicateWrapper,
+}
+
+/// Wire shape of [`StateV01`] before the declared predicate type has been
+/// compared with the predicate that is actually embedded.
+#[derive(Deserialize)]
+#[serde(deny_unknown_fields)]
+struct StateV01Unchecked {
+    #[serde(rename = "_type")]
+    typ: String,
+    subject: BTreeMap<VirtualTargetPath, TargetDescription>,
+    #[serde(rename = "predicateType")]
+    predicate_type: PredicateVer,
+    predicate: PredicateWrapper,
+}
+
+impl std::convert::TryFrom<StateV01Unchecked> for StateV01 {
+    type Error = Error;
+
+    fn try_from(raw: StateV01Unchecked) -> Result<Self> {
+        let embedded = match &raw.predicate {
+            PredicateWrapper::LinkV0_2(_) => PredicateVer::LinkV0_2,
+            PredicateWrapper::SLSAProvenanceV0_1(_) => {
+                PredicateVer::SLSAProvenanceV0_1
+            }
+            PredicateWrapper::SLSAProvenanceV0_2(_) => {
+                PredicateVer::SLSAProvenanceV0_2
+            }
+        };
+        if embedded != raw.predicate_type {
+            return Err(Error::AttestationFormatDismatch(
+                raw.predicate_type.into(),
+                embedded.into(),
+            ));
+        }
+        Ok(StateV01 {
+            typ: raw.typ,
+            subject: raw.subject,
+            predicate_type: raw.predicate_type,
+            predicate: raw.predicate,
+        })
+    }
 }
 
 impl StateLayout for StateV01 {
